@@ -127,6 +127,7 @@ def case_roundtrip(case):
                         stale = [dict(s_, value=enc(7.25)) if s_.get("expression") is None else s_ for s_ in case["specs"]]
                         extra = [{k: enc(v) for k, v in param_spec(f"zz.stale{i}", 10.0 + i).items()} for i in (1, 2, 3)]
                         save_parameters(build(extra + stale), f, **kw)
+                        load_parameters(f, **({"sep": kw["sep"]} if "sep" in kw else {}))  # ... and was loaded from there
                         kw["allow_overwrite"] = True
                     save_parameters(cur, f, **kw)
                     lk = {"sep": kw["sep"]} if "sep" in kw else {}
